@@ -1095,6 +1095,9 @@ fn opaque_strings() -> Vec<String> { unimplemented!() }
 // std function without a vstd specification: Result::and keeps the first error, else the second result
 pub assume_specification<T, E, U> [ Result::<T, E>::and::<U> ] (a: Result<T, E>, b: Result<U, E>) -> (r: Result<U, E>)
     ensures r == (match a { Ok(_) => b, Err(e) => Err::<U, E>(e) });
+// (Result::or is not called on the unchanged tree; its specification lets a change that swaps `and` for `or` be decided)
+pub assume_specification<T, E, F> [ Result::<T, E>::or::<F> ] (a: Result<T, E>, b: Result<T, F>) -> (r: Result<T, F>)
+    ensures r == (match a { Ok(v) => Ok::<T, F>(v), Err(_) => b });
 macro_rules! format { ($($t:tt)*) => { opaque_string() }; }
 /// assumption A-derive-ord-tyid: derive(Ord) on TyID / tuples of TyID is a lawful total order
 #[verifier::external_body]
@@ -1597,7 +1600,7 @@ impl TypeChecker {
             forall|o: Seq<TypeNode>| #[trigger] same_graph(o, old(self).types@) ==> same_graph(o, final(self).types@), //# C07 add.spec.aux1
             tview(final(self).types@) == tview(old(self).types@), //# C03 add.view_unchanged
             final(self).variables == old(self).variables, //# C07 add.spec.aux2
-            r is Ok <==> add_ok_all(tview(old(self).types@), a, b), //# C03 add.ok_iff_table
+            r is Ok <==> add_ok_all(tview(old(self).types@), a, b), //# C02,C03 add.ok_iff_table
             r is Err ==> r->Err_0.len() >= 1 && r->Err_0[0].span() == span, //# C03 add.error_carries_span
 //@   endspec
 //@   ghost entry
@@ -1651,7 +1654,7 @@ impl TypeChecker {
             forall|o: Seq<TypeNode>| #[trigger] same_graph(o, old(self).types@) ==> same_graph(o, final(self).types@), //# C07 sub.spec.aux1
             tview(final(self).types@) == tview(old(self).types@), //# C03 sub.view_unchanged
             final(self).variables == old(self).variables, //# C07 sub.spec.aux2
-            r is Ok <==> arith_ok_all(tview(old(self).types@), a, b), //# C03 sub.ok_iff_table
+            r is Ok <==> arith_ok_all(tview(old(self).types@), a, b), //# C02,C03 sub.ok_iff_table
             r is Err ==> r->Err_0.len() >= 1 && r->Err_0[0].span() == span, //# C03 sub.error_carries_span
 //@   endspec
 //@   ghost entry
@@ -1704,7 +1707,7 @@ impl TypeChecker {
             forall|o: Seq<TypeNode>| #[trigger] same_graph(o, old(self).types@) ==> same_graph(o, final(self).types@), //# C07 mul.spec.aux1
             tview(final(self).types@) == tview(old(self).types@), //# C03 mul.view_unchanged
             final(self).variables == old(self).variables, //# C07 mul.spec.aux2
-            r is Ok <==> arith_ok_all(tview(old(self).types@), a, b), //# C03 mul.ok_iff_table
+            r is Ok <==> arith_ok_all(tview(old(self).types@), a, b), //# C02,C03 mul.ok_iff_table
             r is Err ==> r->Err_0.len() >= 1 && r->Err_0[0].span() == span, //# C03 mul.error_carries_span
 //@   endspec
 //@   ghost entry
@@ -1757,7 +1760,7 @@ impl TypeChecker {
             forall|o: Seq<TypeNode>| #[trigger] same_graph(o, old(self).types@) ==> same_graph(o, final(self).types@), //# C07 cmp.spec.aux1
             tview(final(self).types@) == tview(old(self).types@), //# C03 cmp.view_unchanged
             final(self).variables == old(self).variables, //# C07 cmp.spec.aux2
-            r is Ok <==> cmp_ok_all(tview(old(self).types@), a, b), //# C03 cmp.ok_iff_table
+            r is Ok <==> cmp_ok_all(tview(old(self).types@), a, b), //# C02,C03 cmp.ok_iff_table
             r is Err ==> r->Err_0.len() >= 1 && r->Err_0[0].span() == span, //# C03 cmp.error_carries_span
 //@   endspec
 //@   ghost entry
@@ -1810,7 +1813,7 @@ impl TypeChecker {
             forall|o: Seq<TypeNode>| #[trigger] same_graph(o, old(self).types@) ==> same_graph(o, final(self).types@), //# C07 div.spec.aux1
             tview(final(self).types@) == tview(old(self).types@), //# C03 div.view_unchanged
             final(self).variables == old(self).variables, //# C07 div.spec.aux2
-            r is Ok <==> div_ok_all(tview(old(self).types@), a, b), //# C03 div.ok_iff_table
+            r is Ok <==> div_ok_all(tview(old(self).types@), a, b), //# C02,C03 div.ok_iff_table
             r is Err ==> r->Err_0.len() >= 1 && r->Err_0[0].span() == span, //# C03 div.error_carries_span
 //@   endspec
 //@   ghost entry
@@ -2974,7 +2977,7 @@ impl TypeChecker {
 //@   spec
         requires old(self).inv2(), old(self).valid(a), //# C07 check_constraints.pre.id_in_range
         ensures final(self).inv2(), final(self).grows(old(self)), //# C02,C07 check_constraints.keeps_invariant
-            forall|c: Constraint| #[trigger] cons_of(old(self).types@, a.0 as int).contains(c) && con_violated(old(self).types@, a, c) ==> r is Err, //# C03,C05 check_constraints.a_recorded_constraint_that_the_known_types_violate_is_rejected
+            forall|c: Constraint| #[trigger] cons_of(old(self).types@, a.0 as int).contains(c) && con_violated(old(self).types@, a, c) ==> r is Err, //# C02,C03,C05 check_constraints.a_recorded_constraint_that_the_known_types_violate_is_rejected
             r is Err ==> r->Err_0.len() >= 1, //# C07 check_constraints.an_error_result_is_never_an_empty_list
 //@   endspec
 //@   ghost entry
@@ -2988,7 +2991,7 @@ impl TypeChecker {
                 vstd::std_specs::btree::key_obeys_cmp_spec::<Constraint>(), vstd::std_specs::btree::key_obeys_cmp_spec::<String>(), //# C07 check_constraints.loop1.aux2
                 hoisted_tmp@.dom() == cons_of(ts0, a.0 as int), cons_in_range(hoisted_tmp@, ts0.len() as int), //# C02,C07 check_constraints.loop1.aux3
                 forall|j: int| 0 <= j < it.seq().len() ==> hoisted_tmp@.dom().contains(*(#[trigger] it.seq()[j]).0), //# - check_constraints.loop1.aux4
-                forall|j: int| 0 <= j < it.index@ ==> !con_violated(ts0, a, *(#[trigger] it.seq()[j]).0), //# C03,C05 check_constraints.loop.every_visited_constraint_was_checked
+                forall|j: int| 0 <= j < it.index@ ==> !con_violated(ts0, a, *(#[trigger] it.seq()[j]).0), //# C02,C03,C05 check_constraints.loop.every_visited_constraint_was_checked
 //@   endloop
 //@ end
 //@ fn sylt-compiler/src/typechecker.rs find_node_mut
